@@ -121,6 +121,7 @@ func runC16(c *Ctx) {
 	c16Threshold(c, p)
 	c16Severity(c, p, sec.Types)
 	c16Counts(c, p)
+	c16DoubleWalk(c, p)
 	c16Pure(c, p, astPath)
 }
 
@@ -553,4 +554,106 @@ func underOnce(p *core.Prog, fn *ssa.Function) bool {
 		}
 	}
 	return true
+}
+
+// c16DoubleWalk: one payload, one finding. If a scanner function hands the same node to two walkers that can
+// both reach the same finding-producing function, every payload inside that node is reported twice (and 2^depth
+// times when the construct nests).
+func c16DoubleWalk(c *Ctx, p *core.Prog) {
+	r := c.R
+	r.Rule("single-walk", "no function of the scanner passes the same node value to two calls whose callees can both reach the same function that appends a finding")
+	inSec := func(f *ssa.Function) bool { return f != nil && f.Blocks != nil && core.InPkgs(f, "pkg/sql/security") }
+	fns := p.SrcFuncs("pkg/sql/security")
+	appends := map[*ssa.Function]bool{}
+	for _, fn := range fns {
+		for _, b := range fn.Blocks {
+			for _, in := range b.Instrs {
+				if call, ok := in.(*ssa.Call); ok && core.IsBuiltinCall(&call.Call, "append") {
+					if sl, ok := call.Type().Underlying().(*types.Slice); ok {
+						if en := core.NamedOf(sl.Elem()); en != nil && en.Obj().Name() == "Finding" {
+							appends[fn] = true
+						}
+					}
+				}
+			}
+		}
+	}
+	reachApp := map[*ssa.Function]map[*ssa.Function]bool{}
+	for _, fn := range fns {
+		set := map[*ssa.Function]bool{}
+		for g := range p.Reachable([]*ssa.Function{fn}, inSec) {
+			if appends[g] {
+				set[g] = true
+			}
+		}
+		reachApp[fn] = set
+	}
+	n := 0
+	for _, fn := range fns {
+		type site struct {
+			call   *ssa.Call
+			callee *ssa.Function
+		}
+		byArg := map[ssa.Value][]site{}
+		for _, b := range fn.Blocks {
+			for _, in := range b.Instrs {
+				call, ok := in.(*ssa.Call)
+				if !ok {
+					continue
+				}
+				callee := call.Call.StaticCallee()
+				if callee == nil || !inSec(callee) || len(reachApp[callee]) == 0 {
+					continue
+				}
+				for i, a := range call.Call.Args {
+					if i == 0 && callee.Signature.Recv() != nil {
+						continue
+					}
+					switch a.Type().Underlying().(type) {
+					case *types.Interface, *types.Pointer:
+						if strings.Contains(a.Type().String(), "ast.") {
+							byArg[unwrapIface(a)] = append(byArg[unwrapIface(a)], site{call, callee})
+						}
+					}
+				}
+			}
+		}
+		seq := 0
+		// deterministic order: arguments by the position of their first use
+		var argOrder []ssa.Value
+		for v := range byArg {
+			argOrder = append(argOrder, v)
+		}
+		sort.Slice(argOrder, func(i, j int) bool { return byArg[argOrder[i]][0].call.Pos() < byArg[argOrder[j]][0].call.Pos() })
+		for _, v := range argOrder {
+			sites := byArg[v]
+			for i := 0; i < len(sites); i++ {
+				for j := i + 1; j < len(sites); j++ {
+					a, b := sites[i], sites[j]
+					// both calls can execute on one path?
+					if !(instrReaches(a.call, b.call, nil) || instrReaches(b.call, a.call, nil)) {
+						continue
+					}
+					var shared []string
+					for g := range reachApp[a.callee] {
+						if reachApp[b.callee][g] {
+							shared = append(shared, g.Name())
+						}
+					}
+					n++
+					if len(shared) == 0 {
+						continue
+					}
+					sort.Strings(shared)
+					seq++
+					first, second := a, b
+					if second.call.Pos() < first.call.Pos() {
+						first, second = second, first
+					}
+					r.Violate("single-walk", core.FnName(fn)+sprintf("|double#%d", seq), p.Pos(second.call.Pos()), "the same node is handed to "+first.callee.Name()+" and to "+second.callee.Name()+", which can both reach "+strings.Join(shared, ", ")+": every payload inside it is reported more than once")
+				}
+			}
+		}
+	}
+	r.OK("single-walk", "scan", "-", sprintf("%d pairs of walker calls on a common node examined", n))
 }
